@@ -6,6 +6,7 @@
 (*     d/       directory:  index -> "DI",  g -> "G"                       *)
 (*     e/       directory without index                                    *)
 (*     pfx/     directory:  f -> "PF"     (a directory named like the prefix)*)
+(*     x/       directory whose "index" entry is itself a directory        *)
 (* next to it, OUTSIDE the root:  secret -> "SECRET".                      *)
 (* A request is (method, segs, prefix): segs = the URL path split at "/"   *)
 (* after its first slash (a trailing slash gives a last empty segment),    *)
@@ -25,6 +26,7 @@ Lookup(p) == CASE p = <<>> -> "dir"
                [] p = <<"d">> -> "dir" [] p = <<"d", "index">> -> "DI" [] p = <<"d", "g">> -> "G"
                [] p = <<"e">> -> "dir"
                [] p = <<"pfx">> -> "dir" [] p = <<"pfx", "f">> -> "PF"
+               [] p = <<"x">> -> "dir" [] p = <<"x", "index">> -> "dir"      \* the index entry of x/ is a DIRECTORY
                [] OTHER -> "none"
 \* path.Clean of "/" ++ segs: drop "" and ".", ".." pops but never leaves the root
 RECURSIVE Resolve(_, _, _)
